@@ -45,7 +45,7 @@ func init() {
 
 func (w c28) ID() string { return w.id }
 
-var c28Types = []string{gen.TOpen2, gen.TOpen3, gen.TEditions, gen.THybrid, gen.TOpaque, gen.TOpaque, gen.TExt2, "goproto.proto.test.TestAllTypes.NestedMessage", "opaque.goproto.proto.testeditions.TestAllExtensions", gen.TManyOpaque,
+var c28Types = []string{gen.TOpen2, gen.TOpen3, gen.TEditions, gen.THybrid, gen.TOpaque, gen.TOpaque, gen.TExt2, gen.TExt2, gen.TExt2, "goproto.proto.test.TestAllTypes.NestedMessage", "opaque.goproto.proto.testeditions.TestAllExtensions", gen.TManyOpaque,
 	// editions files with file-level and field-level field_presence settings (IMPLICIT file default with EXPLICIT
 	// overrides; LEGACY_REQUIRED scalars of every kind)
 	"goproto.proto.test.TestAllTypesProto3Editions", "goproto.proto.test.TestAllTypesProto2Editions", c28Required,
@@ -55,6 +55,7 @@ var c28Types = []string{gen.TOpen2, gen.TOpen3, gen.TEditions, gen.THybrid, gen.
 	"pbsim.fx.AfterOneof", "pbsim.fx.AfterOneof",
 	// other shapes of numbering and nesting: a oneof in the middle of sparse field numbers, small proto2 /
 	// proto3 / editions messages of the text-format test schemas (groups, requireds, proto3 optional)
+	"goproto.proto.test.TestPackedExtensions", "goproto.proto.test.TestUnpackedExtensions", // extension-only messages: packed / unpacked repeated extensions of every scalar kind
 	"goproto.proto.order.Message", "goproto.proto.order.Message", "pb2.Scalars", "pb2.Nests", "pb2.Requireds", "pb2.IndirectRequired", "pb2.Maps", "pb2.Repeats",
 	"pb3.Scalars", "pb3.Proto3Optional", "pb3.Oneofs", "pb3.Maps", "pb3.Nests", "pbeditions.Scalars", "pbeditions.ImplicitScalars", "pbeditions.Nests", "pbeditions.Requireds",
 	// the conformance messages: a oneof with NullValue / wrapper members, well-known-type fields (their
@@ -764,7 +765,19 @@ func (p *c28Pair) mutate(op *scn.Op, newMsg func() proto.Message) string {
 				am.Append(fd, &model.AVal{M: sub})
 			} else {
 				v := scalarOfKind(r, fd)
-				l.Append(v.ToValue())
+				if op.M%5 == 0 {
+					v = model.Scalar{Kind: fd.Kind()}
+					if fd.Kind() == protoreflect.EnumKind {
+						v.I = int64(fd.Enum().Values().Get(0).Number())
+					}
+					ne := l.NewElement()
+					if got := model.FromValue(fd.Kind(), ne); got.String() != v.String() {
+						return fmt.Sprintf("value: NewElement of list field %s is %s, want %s", fd.Name(), got.String(), v.String())
+					}
+					l.Append(ne)
+				} else {
+					l.Append(v.ToValue())
+				}
 				am.Append(fd, &model.AVal{S: v})
 			}
 		case "list-set":
@@ -877,6 +890,23 @@ func (p *c28Pair) mutate(op *scn.Op, newMsg func() proto.Message) string {
 			return ""
 		}
 		xt := xts[int(op.N)%len(xts)]
+		if op.Op == "ext-set" && op.M%4 == 0 {
+			// (the NewElement case below: a repeated scalar extension, enums preferred)
+			var lists, enums []protoreflect.ExtensionType
+			for _, c := range xts {
+				if d := c.TypeDescriptor(); d.IsList() && d.Message() == nil {
+					lists = append(lists, c)
+					if d.Kind() == protoreflect.EnumKind {
+						enums = append(enums, c)
+					}
+				}
+			}
+			if len(enums) > 0 && op.N%2 == 0 {
+				xt = enums[int(op.N/2)%len(enums)]
+			} else if len(lists) > 0 {
+				xt = lists[int(op.N/2)%len(lists)]
+			}
+		}
 		xd := xt.TypeDescriptor()
 		if op.Op == "ext-clear" {
 			proto.ClearExtension(p.m, xt)
@@ -893,7 +923,20 @@ func (p *c28Pair) mutate(op *scn.Op, newMsg func() proto.Message) string {
 			}
 			v := scalarOfKind(r, xd)
 			l := m.Mutable(xd).List()
-			l.Append(v.ToValue())
+			if op.M%4 == 0 {
+				// the element NewElement hands out: the zero of the kind, for an enum its first declared value
+				v = model.Scalar{Kind: xd.Kind()}
+				if xd.Kind() == protoreflect.EnumKind {
+					v.I = int64(xd.Enum().Values().Get(0).Number())
+				}
+				ne := l.NewElement()
+				if got := model.FromValue(xd.Kind(), ne); got.String() != v.String() {
+					return fmt.Sprintf("value: NewElement of the list of extension %s is %s, want %s", xd.FullName(), got.String(), v.String())
+				}
+				l.Append(ne)
+			} else {
+				l.Append(v.ToValue())
+			}
 			am.Append(xd, &model.AVal{S: v})
 		case xd.IsMap():
 			return ""
